@@ -37,13 +37,13 @@ type c13Crash struct {
 // In multi-crash plans SkipKnown makes the injector skip a crash that would fall between the round-state write and
 // the operation write of one message (the recorded finding D12), so that the search continues behind it.
 type c13Plan struct {
-	SkipKnown bool `json:"skip_known,omitempty"`
-	N       int        `json:"n"`
-	T       int        `json:"t"`
-	Node    int        `json:"node"`
-	Lazy    bool       `json:"lazy"` // the crashing node's operator answers last and its node polls one message at a time
-	Crashes []c13Crash `json:"crashes"`
-	Stops   []int      `json:"stops"` // clean stop/start of the node after it has processed that many board messages
+	SkipKnown bool       `json:"skip_known,omitempty"`
+	N         int        `json:"n"`
+	T         int        `json:"t"`
+	Node      int        `json:"node"`
+	Lazy      bool       `json:"lazy"` // the crashing node's operator answers last and its node polls one message at a time
+	Crashes   []c13Crash `json:"crashes"`
+	Stops     []int      `json:"stops"` // clean stop/start of the node after it has processed that many board messages
 }
 
 type c13Effect struct {
@@ -537,7 +537,7 @@ func TestC13(t *testing.T) {
 		}
 		type cfg struct {
 			n, thr, node int
-			lazy      bool
+			lazy         bool
 		}
 		var cfgs []cfg
 		if thorough() {
